@@ -376,7 +376,9 @@ strings are well-formed letters, every byte string with something after the opti
 Not covered (kept in `accepts_iff_grammar`): panic / fault exits of the many-digit re-parse (C10
 `parseNumber_total`), `numberBits n = litBits (content)` for at most `u64_step` digits (C01/C05 territory),
 the entry-point validation of `parseFloatModel`, and the excluded classes below, which are *findings*:
-empty input / bare sign (`body = []`), formats with a base prefix, formats with a digit separator. -/
+empty input / bare sign (`body = []`), formats with a base prefix. Formats with a digit separator (any flags) are
+covered on separator-free input by `accepts_iff_grammar_sep_partial` in `Props/C12Sep.lean` (the former finding
+`sep-format-uncounted-8digit-block` is repaired, see `regression_sep_format_*` below). -/
 theorem accepts_iff_grammar_partial (c : Cfg) (hd : c.debug = false)
     (hfmt : c.feats.format = false ∨ SepPrefixFree c.fmt)
     (hr8 : c.feats.powerOfTwo = false → c.mantissaRadix ≤ 10)
